@@ -99,7 +99,7 @@ def run(chk):
     chk.prove(models=["Model/Machine"])
     rng = chk.rng
     exprs = []
-    n = 200 if chk.tier == "quick" else 12000
+    n = 2500 if chk.tier == "quick" else 12000
     for i in range(n):
         d = session.scratch_dir()
         try:
